@@ -1,9 +1,90 @@
 import StraxModel.Driver.Parse
+import StraxModel.Model.Pulse
+/-
+  Ops of property C18 (theory T14, `Strax.Pulse`).  Tokens:
+    record   time:length:dt:channel:record_i:pulse_length:area:reduction_level:bl:rms:shift:d0,d1,…
+             (bl, rms = `p/q`), records joined by `;`, `-` = no records
+    thr      `s=p/q` (one number) | `c=p/q,p/q,…` (per channel)
+    hitrefs  record_i:left:right joined by `;`, `-` = none
+  Outputs print rationals in lowest terms.
+-/
 namespace Strax.Driver
-open Strax
+open Strax Strax.Pulse
 
-/-- ops of property C18 (stub: no ops yet) -/
+def parseQ (s : String) : Option Q :=
+  match s.splitOn "/" with
+  | [a, b] => do
+    let d ← b.toNat?
+    if d = 0 then none else pure ⟨← a.toInt?, d⟩
+  | _ => none
+
+def showQ (q : Q) : String := let n := q.norm; s!"{n.num}/{n.den}"
+
+def parseRecord (tok : String) : Option Record :=
+  match tok.splitOn ":" with
+  | [t, l, dt, ch, ri, pl, ar, rl, bl, rms, sh, data] => do
+    pure { time := ← t.toInt?, length := ← l.toNat?, dt := ← dt.toInt?, channel := ← ch.toInt?,
+           recordI := ← ri.toInt?, pulseLength := ← pl.toInt?, area := ← ar.toInt?, reductionLevel := ← rl.toNat?,
+           baseline := ← parseQ bl, baselineRms := ← parseQ rms, ampBitShift := ← sh.toNat?,
+           data := ← parseInts data }
+  | _ => none
+
+def parseRecords (s : String) : Option (List Record) := (splitList s ";").mapM parseRecord
+
+def parseThr (s : String) : Option ThrArg :=
+  match s.splitOn "=" with
+  | ["s", q] => do pure (.scalar (← parseQ q))
+  | ["c", qs] => do pure (.perCh (← (splitList qs ",").mapM parseQ))
+  | _ => none
+
+def parseHitRef (tok : String) : Option HitRef :=
+  match tok.splitOn ":" with
+  | [a, b, c] => do pure ⟨← a.toNat?, ← b.toNat?, ← c.toNat?⟩
+  | _ => none
+
+def parseHitRefs (s : String) : Option (List HitRef) := (splitList s ";").mapM parseHitRef
+
+def showList (f : α → String) (l : List α) (sep : String) : String :=
+  if l.isEmpty then "-" else sep.intercalate (l.map f)
+
+def showHit (h : Hit) : String :=
+  s!"{h.time}:{h.length}:{h.dt}:{h.channel}:{h.left}:{h.right}:{h.recordI}:{showQ h.area}:{showQ h.height}:{showQ h.threshold}:{h.maxTime}"
+
+def showRecord (r : Record) : String :=
+  s!"{r.time}:{r.length}:{r.dt}:{r.channel}:{r.recordI}:{r.pulseLength}:{r.area}:{r.reductionLevel}:{showQ r.baseline}:{showQ r.baselineRms}:{r.ampBitShift}:{showInts r.data}"
+
+def showRecords (rs : List Record) : String := showList showRecord rs ";"
+
+def showRms : Rms → String
+  | .sqrtOf v => s!"sqrt{showQ v}"
+  | .nan => "nan"
+
 def handleC18 : List String → Option String
+  | ["c18.hits", amp, hon, recs] => do
+    let a ← parseThr amp; let h ← parseThr hon; let rs ← parseRecords recs
+    pure <| showExcept (fun hs => showList showHit hs ";") (findHits rs a h)
+  | ["c18.links", recs] => do
+    let rs ← parseRecords recs
+    pure <| showExcept (fun (p, n) => s!"{showInts p}|{showInts n}") (recordLinks rs)
+  | ["c18.cut", le, re, hits, recs] => do
+    let le ← le.toInt?; let re ← re.toInt?; let hs ← parseHitRefs hits; let rs ← parseRecords recs
+    pure <| showExcept showRecords (cutOutsideHits rs hs le re)
+  | ["c18.reduce", amp, hon, le, re, recs] => do
+    let a ← parseThr amp; let h ← parseThr hon
+    let le ← le.toInt?; let re ← re.toInt?; let rs ← parseRecords recs
+    pure <| showExcept (fun (hs, out) => s!"{showList showHit hs ";"} {showRecords out}")
+      (findHits rs a h >>= fun hs => (cutOutsideHits rs (hs.map Hit.ref) le re).map fun out => (hs, out))
+  | ["c18.integrate", recs] => do
+    let rs ← parseRecords recs
+    pure s!"ok {showInts ((integrate rs).map (·.area))}"
+  | ["c18.zoob", recs] => do
+    let rs ← parseRecords recs
+    pure s!"ok {showRecords (zeroOutOfBounds rs)}"
+  | ["c18.baseline", k, flip, sloppy, fallback, recs] => do
+    let k ← k.toNat?; let f ← parseBool flip; let s ← parseBool sloppy; let fb ← fallback.toInt?
+    let rs ← parseRecords recs
+    pure <| showExcept (fun out => showList (fun (r, rms) => s!"{showRecord r}~{showRms rms}") out ";")
+      (baseline rs k f s fb)
   | _ => none
 
 end Strax.Driver
